@@ -2,6 +2,7 @@ package sys
 
 import (
 	"bytes"
+	"errors"
 	"fmt"
 	"io"
 	"net"
@@ -365,6 +366,53 @@ func (s *Sys) HTTP(method, path string, body []byte) (resp HTTPResp) {
 	resp.Status = rec.Code
 	resp.Body = rec.Body.Bytes()
 	resp.Header = rec.Header()
+	return resp
+}
+
+// abortWriter is a client that goes away: the first failAfter bytes of the response are taken,
+// every later Write fails (what net/http reports once the peer has reset the connection).
+type abortWriter struct {
+	h         http.Header
+	failAfter int
+	n         int
+	Status    int
+}
+
+func (w *abortWriter) Header() http.Header { return w.h }
+func (w *abortWriter) WriteHeader(c int) {
+	if w.Status == 0 {
+		w.Status = c
+	}
+}
+func (w *abortWriter) Write(b []byte) (int, error) {
+	if w.Status == 0 {
+		w.Status = 200
+	}
+	room := w.failAfter - w.n
+	if room >= len(b) {
+		w.n += len(b)
+		return len(b), nil
+	}
+	if room < 0 {
+		room = 0
+	}
+	w.n += room
+	return room, errors.New("write: connection reset by peer")
+}
+
+// HTTPAbort performs one request whose client stops reading after failAfter bytes of the body.
+func (s *Sys) HTTPAbort(method, path string, failAfter int) (resp HTTPResp) {
+	req := httptest.NewRequest(method, "http://verif.test"+path, nil)
+	w := &abortWriter{h: http.Header{}, failAfter: failAfter}
+	func() {
+		defer func() {
+			if r := recover(); r != nil {
+				resp.Panic = r
+			}
+		}()
+		s.Router.ServeHTTP(w, req)
+	}()
+	resp.Status = w.Status
 	return resp
 }
 
